@@ -190,6 +190,8 @@ fn exponent() -> BoxedStrategy<Vec<u64>> {
 
 fn modpow_triple(ml: usize) -> BoxedStrategy<(Vec<u64>, Vec<u64>, Vec<u64>)> {
     prop_oneof![
+        // exponents of 3..5 digits with moduli of every size (multi-digit outer loops of both modpow paths)
+        4 => (gen::nat(ml + 1), gen::nat_range(3, 5), modulus(ml)),
         // long exponents (beyond 2048 bits) with a short modulus, so the reference stays cheap
         2 => (gen::nat(3), gen::big_nat(vec![31, 32, 33, 34, 40]), modulus(2)),
         // independent base
@@ -243,7 +245,13 @@ fn modinv_pair(ml: usize) -> BoxedStrategy<(Vec<u64>, Vec<u64>)> {
             (rn(&k).mul(&rm).add(&r).to_u64_digits(), m)
         }),
         // modulus one
-        15 => gen::nat(3).prop_map(|b| (b, vec![1u64])),
+        10 => gen::nat(3).prop_map(|b| (b, vec![1u64])),
+        // consecutive Fibonacci numbers: coprime, all Euclid quotients 1 (the longest chain for the size)
+        5 => (2usize..=360, any::<bool>()).prop_map(|(k, swap)| {
+            let (mut f0, mut f1) = (Nat::one(), Nat::one());
+            for _ in 0..k { let t = f0.add(&f1); f0 = f1; f1 = t; }
+            if swap { (f1.to_u64_digits(), f0.to_u64_digits()) } else { (f0.to_u64_digits(), f1.to_u64_digits()) }
+        }),
     ]
     .boxed()
 }
